@@ -194,4 +194,31 @@ def padToFullSector (st : Region) : Region :=
     { st with file := put st.file st.file.size (zeros (4096 - st.file.size % 4096)) }
   else st
 
+/-! ### the methods as state transformers (Go methods have a pointer receiver) -/
+
+/-- `ReadSector` as Go sees it: a method on `*Region`. It returns the data / error class and the receiver's state
+    afterwards — which is the state before: reading (whatever it returns) changes nothing in the Region. -/
+def readSectorS (st : Region) (x z : Int) : Res ByteArray × Region := (readSector st x z, st)
+
+def existSectorS (st : Region) (x z : Int) : Res Bool × Region := (existSector st x z, st)
+
+/-- a sequence of `ReadSector` calls on one Region, threading the receiver -/
+def runReads : Region → List (Int × Int) → List (Res ByteArray) × Region
+  | st, [] => ([], st)
+  | st, (x, z) :: rs =>
+    let r := readSectorS st x z
+    let rest := runReads r.2 rs
+    (r.1 :: rest.1, rest.2)
+
+/-! ### an aged file (C14 harness op `a`): older timestamps on disk, written behind the Region's back -/
+
+def agedStamp (t : BitVec 32) : BitVec 32 := if t = 0#32 then t else t - 86400#32
+
+/-- the timestamp sector with one day subtracted from every non-zero entry
+    (irreducible: keeps the elaborator from evaluating the 1024-step fold symbolically; proofs use `unfold`) -/
+@[irreducible] def agedSector (f : ByteArray) : ByteArray :=
+  (List.range 1024).foldl (fun acc k => acc ++ be32bytes (agedStamp (be32 f (4096 + 4 * k)))) ByteArray.empty
+
+def ageFile (f : ByteArray) : ByteArray := put f 4096 (agedSector f)
+
 end GoMC.Model.Region
